@@ -2,6 +2,7 @@ package props
 
 import (
 	"fmt"
+	"os"
 	"sort"
 	"strings"
 
@@ -71,42 +72,51 @@ func autoRun(spec *LifeSpec, name string) bool {
 
 // gateSatisfied reports whether the gate event for (D, cond) occurred before seq.
 func gateSatisfied(ix *lifeIndex, d, cond string, seq int) bool {
+	return gateSatisfiedSince(ix, d, cond, -1, seq)
+}
+
+// gateSatisfiedSince: the gate event occurred after lo and before seq (lo is
+// the creation of the dependency instance that counts).
+func gateSatisfiedSince(ix *lifeIndex, d, cond string, lo, seq int) bool {
 	evs := ix.ev
+	after := func(e *sim.Event) bool { return e.Seq > lo }
 	switch cond {
 	case types.ProcessConditionCompleted:
-		if e := ix.stoppedBeforeLaunch(d); e != nil && e.Seq < seq {
+		if e := ix.stoppedBeforeLaunch(d); e != nil && e.Seq < seq && after(e) {
 			return true
 		}
-		return ix.terminalBetween(d, -1, seq) != nil
+		return ix.terminalBetween(d, lo, seq) != nil
 	case types.ProcessConditionCompletedSuccessfully:
 		p := ix.procs[d]
 		if p == nil {
 			return false
 		}
-		if e := ix.stoppedBeforeLaunch(d); e != nil && e.Seq < seq && e.Code == 0 {
+		if e := ix.stoppedBeforeLaunch(d); e != nil && e.Seq < seq && e.Code == 0 && after(e) {
 			return true
 		}
 		for i := range p.States {
 			e := &p.States[i]
-			if e.Seq < seq && isTerminal(e.Str) && e.Code == 0 {
+			// a command that could not be started did not complete successfully,
+			// whatever exit code is reported with its Error status
+			if e.Seq < seq && after(e) && isTerminal(e.Str) && e.Code == 0 && e.Str != types.ProcessStateError {
 				return true
 			}
 		}
 		return false
 	case types.ProcessConditionHealthy:
-		return hasEventBefore(evs, seq, func(e *sim.Event) bool { return e.Kind == sim.EvProbe && e.Proc == d && e.Flag })
+		return hasEventBefore(evs, seq, func(e *sim.Event) bool { return after(e) && e.Kind == sim.EvProbe && e.Proc == d && e.Flag })
 	case types.ProcessConditionLogReady:
-		return hasEventBefore(evs, seq, func(e *sim.Event) bool { return e.Kind == sim.EvOut && e.Proc == d && e.Flag })
+		return hasEventBefore(evs, seq, func(e *sim.Event) bool { return after(e) && e.Kind == sim.EvOut && e.Proc == d && e.Flag })
 	case types.ProcessConditionStarted, "":
 		if hasEventBefore(evs, seq, func(e *sim.Event) bool {
-			return e.Kind == sim.EvYield && e.Str == "runner.released" && e.Proc == d
+			return after(e) && e.Kind == sim.EvYield && e.Str == "runner.released" && e.Proc == d
 		}) {
 			return true
 		}
-		if e := ix.stoppedBeforeLaunch(d); e != nil && e.Seq < seq {
+		if e := ix.stoppedBeforeLaunch(d); e != nil && e.Seq < seq && after(e) {
 			return true
 		}
-		return ix.terminalBetween(d, -1, seq) != nil
+		return ix.terminalBetween(d, lo, seq) != nil
 	}
 	return true
 }
@@ -148,26 +158,45 @@ func (ix *lifeIndex) apiCreated(name string, instSeq int) bool {
 // never run), nil otherwise.
 func (ix *lifeIndex) stoppedBeforeLaunch(d string) *sim.Event {
 	p := ix.procs[d]
-	if p == nil {
+	if p == nil || len(p.Instances) == 0 {
 		return nil
 	}
+	// the first instance of d ended without ever launching a command
+	first := p.Instances[0]
+	end := -1
 	for i := range p.States {
 		e := &p.States[i]
-		if e.Str != types.ProcessStateTerminating {
-			continue
+		if e.Seq > first && (isTerminal(e.Str) || e.Str == types.ProcessStateTerminating) {
+			end = e.Seq
+			break
 		}
-		launched := false
-		for _, l := range p.Launches {
-			if l.Seq < e.Seq {
-				launched = true
-			}
-		}
-		if !launched {
-			return e
-		}
+	}
+	if end < 0 {
 		return nil
 	}
-	return nil
+	for _, l := range p.Launches {
+		if l.Seq < end {
+			return nil
+		}
+	}
+	if e := ix.ev[end]; e.Str == types.ProcessStateSkipped || e.Str == types.ProcessStateError {
+		return nil // skipped / failed to start: not a stop
+	}
+	// its waiters are released when the request that stops it cancels its
+	// context - somewhere between the request being issued and its Completed
+	// status being written. The request is the recorded cause.
+	for i := range ix.ev {
+		e := &ix.ev[i]
+		if e.Seq <= first || e.Seq >= end {
+			continue
+		}
+		if (e.Kind == sim.EvApiCall && ((e.Proc == d && (e.Str == "stop" || e.Str == "restart")) || e.Str == "shutdown" || e.Str == "update" || e.Str == "scale")) ||
+			(e.Kind == sim.EvYield && e.Str == "shutdown.enter") {
+			return e
+		}
+	}
+	e := ix.ev[end]
+	return &e
 }
 
 // ------------------------------------------------------------------ C01
@@ -210,6 +239,36 @@ func oracleGating(lr *LifeRun, ix *lifeIndex, r *fw.Result) {
 					continue
 				}
 				r.Count("gated_launches_checked", 1)
+				// an API-created instance waits for the dependency instance that
+				// is current at that moment, not for a predecessor of it
+				lo := -1
+				if viaAPI && dl != nil {
+					cur, later := -1, false
+					for _, sq := range dl.Instances {
+						if sq < instSeq {
+							cur = sq
+						} else if sq < l.Seq {
+							later = true // replaced in between: which one counts is not determined
+						}
+					}
+					if !later {
+						lo = cur
+					}
+				}
+				if lo >= 0 && !gateSatisfiedSince(ix, d.On, d.Cond, lo, l.Seq) && gateSatisfied(ix, d.On, d.Cond, l.Seq) {
+					r.Add("C01", "gate-stale-instance:"+d.Cond, "%s (instance created at seq %d by a request) was launched (seq %d) on the strength of an earlier instance of its dependency %s; the instance current at that time (created at seq %d) had not met %s", x.Name, instSeq, l.Seq, d.On, lo, d.Cond)
+					// and if that current instance then ended without meeting the
+					// condition, the dependent should have been skipped (C05)
+					if d.Cond == types.ProcessConditionCompletedSuccessfully {
+						for k := range dl.States {
+							if t := &dl.States[k]; t.Seq > lo && isTerminal(t.Str) && t.Code != 0 {
+								r.Add("C05", "launched-after-unsatisfiable:stale-instance", "%s was launched (seq %d) although the instance of %s it had to wait for (created at seq %d) ended with exit code %d (seq %d)", x.Name, l.Seq, d.On, lo, t.Code, t.Seq)
+								break
+							}
+						}
+					}
+					continue
+				}
 				if !gateSatisfied(ix, d.On, d.Cond, l.Seq) {
 					r.Add("C01", "gate:"+d.Cond, "%s was launched (seq %d, attempt %d) before its dependency %s met %s", x.Name, l.Seq, l.Att, d.On, d.Cond)
 				}
@@ -297,7 +356,9 @@ func unsatisfiedTerminal(ix *lifeIndex, d, cond string) *sim.Event {
 
 func oracleSkip(lr *LifeRun, ix *lifeIndex, r *fw.Result) {
 	spec := lr.Spec
-	if spec.NoDeps || lr.Outcome != sim.RunReturned {
+	// a project that hangs with nothing alive is judged as well: its final
+	// states are final (a dependent left Pending was not reported Skipped)
+	if spec.NoDeps || (lr.Outcome != sim.RunReturned && lr.Outcome != sim.RunHang) {
 		return
 	}
 	for i := range spec.Procs {
@@ -313,7 +374,13 @@ func oracleSkip(lr *LifeRun, ix *lifeIndex, r *fw.Result) {
 		}
 		for _, d := range x.Deps {
 			dl := ix.procs[d.On]
-			if dl == nil || len(dl.Instances) != 1 {
+			if dl != nil && len(dl.Instances) == 1 && ix.apiCreated(x.Name, pl.Instances[0]) && dl.Instances[0] > pl.Instances[0] {
+				// the dependent was created by a request before its dependency
+				// was registered: it does not wait for it (section 9, item 3)
+				continue
+			}
+			if dl == nil || len(dl.Instances) != 1 || !autoRun(spec, d.On) {
+				// (a disabled dependency is not waited for; started by hand later it is a different story)
 				continue
 			}
 			t := unsatisfiedTerminal(ix, d.On, d.Cond)
@@ -363,7 +430,7 @@ func oracleSkip(lr *LifeRun, ix *lifeIndex, r *fw.Result) {
 				}
 			}
 			soleTrigger := len(ix.shutdownEnter) == 0 || ix.shutdownEnter[0] > skipped.Seq
-			if x.ExitOnSkipped && lr.ExitCode == 0 && soleTrigger {
+			if x.ExitOnSkipped && lr.ExitCode == 0 && soleTrigger && lr.Outcome == sim.RunReturned {
 				r.Add("C05", "exit-on-skipped-code", "%s has exit_on_skipped and was skipped but Run() reported success", x.Name)
 			}
 		}
@@ -411,6 +478,35 @@ func dedup(s []string) []string {
 
 func oracleCompletion(lr *LifeRun, ix *lifeIndex, r *fw.Result) {
 	spec := lr.Spec
+	// a shutdown command that fails is followed by SIGKILL: the process is
+	// shut down one way or the other
+	for i := range spec.Procs {
+		p := &spec.Procs[i]
+		if !(strings.HasPrefix(p.StopCmd, "exit ") && p.StopCmd != "exit 0") || p.Daemon {
+			continue
+		}
+		pl := ix.procs[p.Name]
+		if pl == nil {
+			continue
+		}
+		for k := range pl.States {
+			t := &pl.States[k]
+			if t.Str != types.ProcessStateTerminating || !ix.aliveAt(p.Name, t.Seq) {
+				continue
+			}
+			killed := false
+			for _, e := range ix.ev {
+				if e.Seq > t.Seq && e.Kind == sim.EvSignal && e.Proc == p.Name && e.Code == 9 {
+					killed = true
+				}
+			}
+			r.Count("failed_stop_commands_checked", 1)
+			if !killed && (lr.Outcome == sim.RunReturned || lr.Outcome == sim.RunStalled || lr.Outcome == sim.RunHang) {
+				r.Add("C04", "failed-shutdown-command-not-followed-by-kill", "%s was being stopped (Terminating, seq %d) through its shutdown command %q, which fails; no SIGKILL followed", p.Name, t.Seq, p.StopCmd)
+			}
+			break
+		}
+	}
 	if lr.Outcome == sim.RunHang {
 		r.Add("C04", hangKey(lr), "Run() did not return: no event for the silence bound while no command is alive and no request is pending; non-terminal: %s", hangKey(lr))
 		return
@@ -474,7 +570,8 @@ func oracleCompletion(lr *LifeRun, ix *lifeIndex, r *fw.Result) {
 				continue
 			}
 			isTrig := p.ExitOnEnd || (p.Restart == types.RestartPolicyExitOnFailure && t.Code != 0)
-			if !isTrig {
+			if !isTrig || (ix.runRet >= 0 && t.Seq > ix.runRet) {
+				// (an instance started by a request may end after Run() returned)
 				continue
 			}
 			// victim: its last command was killed by a signal sent after the
@@ -491,6 +588,12 @@ func oracleCompletion(lr *LifeRun, ix *lifeIndex, r *fw.Result) {
 			}
 			if last == nil && firstShutdown >= 0 && t.Seq > firstShutdown {
 				victim = true // never launched, ended by the shutdown
+				// ... unless a request of the user stopped it before the shutdown
+				// began: its goroutine then reports the end (and triggers) at once,
+				// while the Completed status is written by the request a little later
+				if c := ix.stoppedBeforeLaunch(p.Name); c != nil && c.Kind == sim.EvApiCall && c.Proc == p.Name && c.Seq < firstShutdown {
+					victim = false
+				}
 			}
 			if victim {
 				if apiShutdown {
@@ -569,8 +672,11 @@ func oracleShutdown(lr *LifeRun, ix *lifeIndex, r *fw.Result) {
 			if l.Seq > first {
 				// allowed only for an instance created by an explicit request
 				// (start / restart / scale / update) issued after the shutdown returned
+				// (a request that overlaps the shutdown - its instance is created
+				// after the shutdown began - is an explicit request as well; what
+				// should happen to it is beyond the statement)
 				is, ok := pl.InstSeq[l.Inst]
-				if !(ok && is > first && ix.apiCreated(n, is)) {
+				if !(ok && is > ix.shutdownEnter[0] && ix.apiCreated(n, is)) {
 					r.Add("C03", "launch-after-shutdown", "command of %s launched (seq %d) after ShutDownProject returned (seq %d) without a new start request", n, l.Seq, first)
 				}
 			}
@@ -622,33 +728,73 @@ func oracleOrdered(lr *LifeRun, ix *lifeIndex, r *fw.Result) {
 		return
 	}
 	sd := ix.shutdownEnter[0]
+	// a daemon dependent is alive until its shutdown command has finished
+	// (ground truth: the time stamp the command leaves behind as its last act)
 	for i := range lr.Spec.Procs {
 		x := &lr.Spec.Procs[i]
-		if !ix.aliveAt(x.Name, sd) {
+		if !x.Daemon || x.StopMark == "" || lr.World == nil {
 			continue
 		}
-		xl := ix.procs[x.Name]
-		var xlaunch *launchRec
-		for _, l := range xl.Launches {
-			if !l.Failed && l.Seq < sd && (l.ExitSeq < 0 || l.ExitSeq > sd) {
-				xlaunch = l
-			}
+		b, err := os.ReadFile(x.StopMark)
+		_ = os.Remove(x.StopMark)
+		if err != nil {
+			continue
 		}
-		if xlaunch == nil {
+		var doneWall int64
+		fmt.Sscanf(strings.TrimSpace(string(b)), "%d", &doneWall)
+		if doneWall == 0 {
 			continue
 		}
 		for _, d := range x.Deps {
-			dl := ix.procs[d.On]
-			if dl == nil {
-				continue
-			}
-			for _, l := range dl.Launches {
-				if l.FirstSignalSeq < sd {
-					continue // not signalled by this shutdown
+			for _, e := range ix.ev {
+				if e.Kind != sim.EvSignal || e.Proc != d.On || e.Seq < sd {
+					continue
 				}
 				r.Count("ordered_pairs_checked", 1)
-				if xlaunch.ExitSeq < 0 || xlaunch.ExitSeq > l.FirstSignalSeq {
-					r.Add("C12", "dependency-signalled-before-dependent-exit", "%s received its stop signal (seq %d) while its dependent %s (alive when shutdown began at seq %d) had not exited", d.On, l.FirstSignalSeq, x.Name, sd)
+				sigWall := lr.World.StartWall().UnixNano() + e.T
+				if sigWall < doneWall {
+					r.Add("C12", "dependency-signalled-before-dependent-exit", "%s received its stop signal %.1f ms before the shutdown command of its daemon dependent %s had finished", d.On, float64(doneWall-sigWall)/1e6, x.Name)
+				}
+				break
+			}
+		}
+	}
+	for i := range lr.Spec.Procs {
+		x := &lr.Spec.Procs[i]
+		for _, xname := range pspecNames(x) {
+			if !ix.aliveAt(xname, sd) {
+				continue
+			}
+			xl := ix.procs[xname]
+			var xlaunch *launchRec
+			for _, l := range xl.Launches {
+				if !l.Failed && l.Seq < sd && (l.ExitSeq < 0 || l.ExitSeq > sd) {
+					xlaunch = l
+				}
+			}
+			if xlaunch == nil {
+				continue
+			}
+			for _, d := range x.Deps {
+				dspec := lr.Spec.proc(d.On)
+				dnames := []string{d.On}
+				if dspec != nil {
+					dnames = pspecNames(dspec)
+				}
+				for _, dname := range dnames {
+					dl := ix.procs[dname]
+					if dl == nil {
+						continue
+					}
+					for _, l := range dl.Launches {
+						if l.FirstSignalSeq < sd {
+							continue // not signalled by this shutdown
+						}
+						r.Count("ordered_pairs_checked", 1)
+						if xlaunch.ExitSeq < 0 || xlaunch.ExitSeq > l.FirstSignalSeq {
+							r.Add("C12", "dependency-signalled-before-dependent-exit", "%s received its stop signal (seq %d) while its dependent %s (alive when shutdown began at seq %d) had not exited", dname, l.FirstSignalSeq, xname, sd)
+						}
+					}
 				}
 			}
 		}
